@@ -124,6 +124,9 @@ func newScript(name, version, kind, marker string) Script {
 	if kind == "misnamed" {
 		s.MetaName = other(name)
 	}
+	if kind == "misnamed-case" { // the file's name in another letter case is another name
+		s.MetaName = strings.ToUpper(name[:1]) + name[1:]
+	}
 	return s
 }
 
@@ -158,7 +161,7 @@ func (s Script) Bytes() []byte {
 // field.
 func (s Script) MetadataOK() bool { return s.Kind == "ok" && s.Version != "" }
 
-// Meta is the metadata the script reports (meaningful when Kind is ok or misnamed).
+// Meta is the metadata the script reports (meaningful when Kind is ok, misnamed or misnamed-case).
 func (s Script) Meta() *pluginfw.GetMetadataResponse {
 	return &pluginfw.GetMetadataResponse{Name: s.MetaName, Description: "d-" + s.Marker, Version: s.Version, URL: "https://x",
 		SupportedContractVersions: []string{"1.0"}, Capabilities: []pluginfw.Capability{"SIGNATURE_GENERATOR.RAW"}}
